@@ -267,10 +267,11 @@ def one_table(ctx, world, tno, forced=None):
                     from gtirb.serialization import DecodeError
                     if isinstance(e, TypeNameError):
                         impl.append("err:typename")
-                    elif isinstance(e, DecodeError) and (
-                            "subtypes" in str(e) or "unpack" in str(e)):
-                        # a known head reached with an arity its codec rejects
-                        impl.append("err:unsupported")
+                    elif isinstance(e, DecodeError):
+                        # a known head reached with an arity its codec
+                        # rejects, or bytes its strict reads reject (the
+                        # message text is not looked at)
+                        impl.append("err:DecodeError")
                     else:
                         impl.append("err:other:" + type(e).__name__)
                     continue
@@ -347,9 +348,8 @@ def one_table(ctx, world, tno, forced=None):
             exc = None
         except (Exception, core.ImplTimeout) as e:   # noqa
             exc = type(e).__name__
-            if exc == "DecodeError" and ("subtypes" in str(e)
-                                         or "unpack" in str(e)):
-                impl.append("err:unsupported")   # bad arity reached
+            if exc == "DecodeError":
+                impl.append("err:DecodeError")   # e.g. bad arity reached
             else:
                 impl.append({"TypeNameError": "err:typename",
                              "EncodeError": "err:encode"}.get(
@@ -461,6 +461,8 @@ def same_obs(a, b):
     lie outside the model's strict reads"""
     if a.startswith("val ?") or b.startswith("err:decode"):
         return True
+    if a == "err:DecodeError" and b == "err:unsupported":
+        return True      # the model's name for a bad arity that was reached
     if a.startswith("ok ") and b.startswith("ok "):
         # a save that had to decode first (re-typed, still lazy table): the
         # set / dict iteration order inside that decode is the
